@@ -127,6 +127,9 @@ def solve_lp(
     # Extract LP coefficients (use cache if available)
     if problem._lp_cache is not None:
         lp_data = problem._lp_cache
+        # Bounds are plain attributes of the variables and may have been
+        # changed since the data was cached: read them on every solve.
+        lp_data.bounds = LinearProgramExtractor().extract_bounds(variables)
     else:
         extractor = LinearProgramExtractor()
         try:
